@@ -564,8 +564,9 @@ func (s *scanningState) scan(line []byte) (bool, error) {
 				return true, nil
 			}
 		}
-		// Switch to race detection mode.
-		if bytes.Equal(trimmed, raceHeaderFooter) {
+		// Switch to race detection mode. A race report starts a new dump: when
+		// found between goroutines, it ends the current one.
+		if s.state == looking && bytes.Equal(trimmed, raceHeaderFooter) {
 			// TODO(maruel): We should buffer it in case the next line is not a
 			// WARNING so we can output it back.
 			s.state = gotRaceHeader1
